@@ -23,6 +23,8 @@ def run(C, R):
         F = C.facts(cfg)
         E = C.engine(cfg)
         R.configs.append(cfg)
+        from common import constructor_state
+        constructor_state(R, C.engine(cfg), C.facts(cfg), STATE, {'value': 'none', 'is_closed': ('const', 0), 'state_id': ('zero-id',), 'waiters': 'empty-queue'}, 'C13.R0')
         from common import wrapper_discipline
         R.floor('C13.W wrapper-paths[%s]' % cfg, wrapper_discipline(C, R, cfg, ['channel::state_broadcast::ChannelState'], 'C13.W'), 2)
         F.adt(STATE)
@@ -122,5 +124,22 @@ def run(C, R):
                                {'trace': trace_summary(path)})
             if name == 'receive_or_register':
                 w4_pending_stores_waker(R, E, F, fn, paths, 'C13.R4')
+                # a receiver parks only when nothing newer exists and the channel is open
+                for path in paths:
+                    if path.exit != 'return' or poll_variant(E, path) != 'Pending':
+                        continue
+                    parks = [e for e in path.events if e['k'] == 'qop' and e['op'] == 'add_front']
+                    if not parks:
+                        continue
+                    closed = const_of(E, path.facts, ('init', (('P', 'self'), 'is_closed')))
+                    kv = E.variant_known(path.facts, ('init', (('P', 'self'), 'value')))
+                    lt = cmp_fact(E, path.facts, 'Lt', requested, SELF_ID)
+                    if closed == 0 and (kv == ('eq', 'None') or lt == 0):
+                        R.ok('C13.R3', '%s|parks: nothing newer, open|%s' % (fn['path'], path_cond(E, path)))
+                    else:
+                        R.fail('C13.R3', [fn['path'], 'parks-although-newer-or-closed'],
+                               'a receiver is queued although the path has not established "nothing newer and open" '
+                               '(closed=%s, slot=%s, requested<current=%s)' % (closed, kv, lt), where(F, parks[0]),
+                               {'trace': trace_summary(path)})
         R.floor('C13.R2 delivery-paths[%s]' % cfg, ndel, 2)
         w4_helper(R, E, F, 'C13.R4h')
